@@ -15,6 +15,8 @@ import Frp.Engines.Group
 import Frp.Engines.Http
 import Frp.Engines.Peer
 import Frp.Engines.RegRace
+import Frp.Engines.Sess
+import Frp.Engines.Crash
 /-! Registry of driver engines (one line per engine). -/
 namespace Frp.Engines
 open Frp.Proto
@@ -37,5 +39,7 @@ def all : List (String × Engine) :=
   , ("http", http)
   , ("peer", peer)
   , ("regrace", regrace)
+  , ("sess", sess)
+  , ("crash", crash)
   ]
 end Frp.Engines
